@@ -145,14 +145,14 @@ impl Add for Duration {
         // Check that the addition fits in an i16
         match self.centuries.checked_add(rhs.centuries) {
             None => {
-                // Overflowed, so we've hit the bound.
-                if self.centuries < 0 {
-                    // We've hit the negative bound, so return MIN.
-                    return Self::MIN;
-                } else {
-                    // We've hit the positive bound, so return MAX.
-                    return Self::MAX;
-                }
+                // The centuries alone overflow, but the nanoseconds may carry the sum back in range:
+                // sum on 128 bits and let the constructor saturate on the side of the true result.
+                return Self::from_total_nanoseconds(
+                    i128::from(self.centuries) * i128::from(NANOSECONDS_PER_CENTURY)
+                        + i128::from(self.nanoseconds)
+                        + i128::from(rhs.centuries) * i128::from(NANOSECONDS_PER_CENTURY)
+                        + i128::from(rhs.nanoseconds),
+                );
             }
             Some(centuries) => {
                 self.centuries = centuries;
@@ -287,8 +287,14 @@ impl Sub for Duration {
         rhs.normalize();
         match self.centuries.checked_sub(rhs.centuries) {
             None => {
-                // Underflowed, so we've hit the min
-                return Self::MIN;
+                // The centuries alone overflow, in either direction: subtract on 128 bits and let
+                // the constructor saturate on the side of the true result.
+                return Self::from_total_nanoseconds(
+                    i128::from(self.centuries) * i128::from(NANOSECONDS_PER_CENTURY)
+                        + i128::from(self.nanoseconds)
+                        - i128::from(rhs.centuries) * i128::from(NANOSECONDS_PER_CENTURY)
+                        - i128::from(rhs.nanoseconds),
+                );
             }
             Some(centuries) => {
                 self.centuries = centuries;
